@@ -63,11 +63,13 @@ func fillBackend(e *Env, b Backend, n int, generic bool) {
 
 		c := ctx
 
-		switch e.Rng.Intn(4) {
+		switch e.Rng.Intn(5) {
 		case 0:
 			c = cache.WithTTL(ctx, time.Hour, false)
 		case 1:
 			c = cache.WithTTL(ctx, -time.Minute, false)
+		case 2:
+			c = cache.WithTTL(ctx, -48*time.Hour, false) // expired for longer than any DeleteExpiredAfter in use: still transferred
 		}
 
 		_ = b.Write(c, k, v)
@@ -84,7 +86,7 @@ func TestC13(t *testing.T) {
 	e := LoadEnv("C13")
 	cf := NewCaseFile("C13", "From Cache Require Import Base Backend Transfer Check.", "check_c13")
 	cf.Rule = "entry sets of 0..60 (quick) / 0..300 (thorough) entries: key lengths {0,1,2,3,5,8,16,33,64} random bytes, values nil / " +
-		"non-nil zero / int / registered struct, expiry none / +1h / -1m, access counters under LRU/LFU; source->target pairings " +
+		"non-nil zero / int / registered struct, expiry none / +1h / -1m / -48h, access counters under LRU/LFU; source->target pairings " +
 		"Sharded->Sharded, Sharded->SyncM, SyncM->Sharded, SyncM->SyncM, ShardedOf->ShardedOf; chain source->t1->t2; " +
 		"non-trivial = >= 3 entries incl. an entry without expiry, one with, and a nil/zero value; distinct = distinct Gallina term"
 
